@@ -60,7 +60,7 @@ const ctxDoc = `{"@context":{"@version":1.1,
      "assertionMethod":{"@id":"sec:assertionMethod","@type":"@id","@container":"@set"},"authentication":{"@id":"sec:authenticationMethod","@type":"@id","@container":"@set"}}},
    "proofValue":{"@id":"https://w3id.org/security#proofValue","@type":"https://w3id.org/security#multibase"},
    "verificationMethod":{"@id":"sec:verificationMethod","@type":"@id"}}},
- "name":"ex:name",
+ "name":"ex:name", "b0":"_:b0",
  "a0":"ex:a0","a1":"ex:a1","a2":"ex:a2","a3":"ex:a3","a4":"ex:a4","a5":"ex:a5","a6":"ex:a6","a7":"ex:a7","a8":"ex:a8","a9":"ex:a9",
  "when":{"@id":"ex:when","@type":"xsd:dateTime"},
  "ref":{"@id":"ex:ref","@type":"@id"},
@@ -817,6 +817,14 @@ func (w *world) runCase(tr *hx.Trace, gen string, cd caseDesc, doc map[string]in
 			sig := "tamper-accepted:" + editKind(cd.Edit)
 			if strings.HasPrefix(editKind(cd.Edit), "jwtcred") {
 				sig = "vp-jwt-credential-string-not-covered"
+			}
+
+			if f := strings.Fields(cd.Edit); len(f) >= 2 && (strings.HasSuffix(f[1], "/b0") || strings.Contains(f[1], "/b0/")) {
+				sig = "blank-node-term-not-signed"
+			}
+
+			if strings.HasPrefix(cd.Edit, "optcreatedvar fracnz") && cd.Suite == "DataIntegrityProof" {
+				sig = "di-created-subsecond-not-signed"
 			}
 
 			fail(sig, fmt.Sprintf("edit %s accepted as verified (%s %s): %+v", cd.Edit, cd.Suite, cd.Repr, vd))
